@@ -11,7 +11,7 @@ package ntor
 //@ spec fn T_MAC() BSeq
 //@ spec fn M_EXPAND() BSeq
 //@ spec fn PROTOID() BSeq
-//@ pred labelsOK() := seq(tKey) == T_KEY && seq(tVerify) == T_VERIFY && seq(tMac) == T_MAC && seq(mExpand) == M_EXPAND && seq(protoID) == PROTOID && len(protoID) == 24
+//@ globalinv labelsOK := seq(tKey) == T_KEY && seq(tVerify) == T_VERIFY && seq(tMac) == T_MAC && seq(mExpand) == M_EXPAND && seq(protoID) == PROTOID && len(protoID) == 24
 
 // secret_input / auth_input of the deployed ntor variant (B is repeated)
 //@ spec fn ntorSuffix(b BSeq, x BSeq, y BSeq, id BSeq) BSeq := cat(b, b, x, y, PROTOID, id)
@@ -31,7 +31,7 @@ package ntor
 
 //@ func ntorCommon(secretInput, id, b, x, y) (keySeed, auth)
 //@   serves C06 C08 C10
-//@   requires labelsOK() && id != nil && b != nil && x != nil && y != nil
+//@   requires id != nil && b != nil && x != nil && y != nil
 //@   ghost si := secretInput.content
 //@   ensures [C06:ntor_transcript] fresh(keySeed) && fresh(auth) && keySeed != nil && auth != nil && keySeed != auth
 //@   ensures [C06,C08,C02:ntor_key_seed] seq(keySeed) == ntorKeySeed(si, seq(b), seq(x), seq(y), seq(id))
@@ -41,7 +41,7 @@ package ntor
 
 //@ func ServerHandshake(clientPublic, serverKeypair, idKeypair, id) (ok, keySeed, auth)
 //@   serves C08 C06 C02 C03 C10
-//@   requires labelsOK() && clientPublic != nil && kpOK(serverKeypair) && kpOK(idKeypair) && id != nil
+//@   requires clientPublic != nil && kpOK(serverKeypair) && kpOK(idKeypair) && id != nil
 //@   ghost e1 := X25519(seq(serverKeypair.private), seq(clientPublic))
 //@   ghost e2 := X25519(seq(idKeypair.private), seq(clientPublic))
 //@   ensures [C08,C03:zero_check_server] ok <==> !allzero(e1) && !allzero(e2)
@@ -51,7 +51,7 @@ package ntor
 
 //@ func ClientHandshake(clientKeypair, serverPublic, idPublic, id) (ok, keySeed, auth)
 //@   serves C08 C06 C02 C10
-//@   requires labelsOK() && kpOK(clientKeypair) && serverPublic != nil && idPublic != nil && id != nil
+//@   requires kpOK(clientKeypair) && serverPublic != nil && idPublic != nil && id != nil
 //@   ghost e1 := X25519(seq(clientKeypair.private), seq(serverPublic))
 //@   ghost e2 := X25519(seq(clientKeypair.private), seq(idPublic))
 //@   ensures [C08,C02:zero_check_client] ok <==> !allzero(e1) && !allzero(e2)
@@ -61,7 +61,7 @@ package ntor
 
 //@ func Kdf(keySeed, okmLen) (okm)
 //@   serves C06 C08 C10
-//@   requires labelsOK() && 0 <= okmLen && okmLen <= 8160
+//@   requires 0 <= okmLen && okmLen <= 8160
 //@   ensures [C06:kdf] len(okm) == okmLen && fresh(okm) && seq(okm) == HKDF(seq(keySeed), T_KEY, M_EXPAND, 0, okmLen)
 
 // Both sides derive the same key seed and AUTH (Diffie-Hellman commutativity assumed).
